@@ -145,6 +145,7 @@ Proof.
       rewrite IH, (IH 1). rewrite map_map. apply map_ext. intros [a b]. unfold shift. cbn. f_equal; lia.
     + rewrite IH, (IH 1). rewrite map_map. apply map_ext. intros [a b]. unfold shift. cbn. f_equal; lia.
 Qed.
+
 (** * slices of slices *)
 Lemma sub_skipn t ob oe j : j <= oe - ob -> skipn j (sub t ob oe) = sub t (ob + j) oe.
 Proof.
@@ -184,59 +185,97 @@ Proof.
   rewrite H. unfold bytepos. rewrite firstn_app, Nat.sub_diag, firstn_all. cbn. rewrite app_nil_r. reflexivity.
 Qed.
 
+Lemma In_sub_mono t lo b e c : lo <= b -> In c (sub t b e) -> In c (sub t lo e).
+Proof.
+  intros H Hc. destruct (Nat.le_gt_cases b e) as [Hbe|Hbe].
+  - replace b with (lo + (b - lo)) in Hc by lia. rewrite <- sub_skipn in Hc by lia. apply (In_skipn' _ _ _ Hc).
+  - unfold sub in Hc. replace (e - b) with 0 in Hc by lia. contradiction.
+Qed.
+
+(* the search inside [lo, hi): [g] is what the transformation [tr] of the searched slices does
+   to the characters there (nothing, or a one-to-one lower-casing that keeps UTF-8 lengths) *)
 Section FindProof.
   Variable find_b : text -> text -> option nat.
   Hypothesis find_b_spec : forall hay nd, find_b hay nd = option_map (bytepos hay) (first_occ nd hay).
   Variable g : N -> N.
   Variable t : text.
-  Hypothesis g_len : forall c, In c t -> clen (g c) = clen c.
+  Variables lo hi : nat.
+  Hypothesis g_len : forall c, In c (sub t lo hi) -> clen (g c) = clen c.
   Variable tr : text -> text.
-  Hypothesis tr_spec : forall b e, tr (sub t b e) = map g (sub t b e).
+  Hypothesis tr_spec : forall b, lo <= b -> b <= hi -> tr (sub t b hi) = map g (sub t b hi).
 
   Lemma find_iter_done fuel frag ob oe : oe < ob -> oe <= length t ->
     find_iter find_b (S fuel) tr t frag ob oe = ([], Done).
   Proof. intros. cbn [find_iter]. rewrite res_text_by_offset_past by assumption. reflexivity. Qed.
 
-  Lemma find_iter_spec : forall n fuel frag ob oe,
-    oe - ob <= n -> ob <= oe -> oe <= length t -> n + 2 <= fuel ->
-    find_iter find_b fuel tr t frag ob oe
-    = (match_indices_go frag (map g (sub t ob oe)) ob 0, Done).
+  (* one next() of the iterator *)
+  Lemma find_iter_step fuel frag ob : lo <= ob -> ob <= hi -> hi <= length t ->
+    find_iter find_b (S fuel) tr t frag ob hi
+    = match first_occ frag (map g (sub t ob hi)) with
+      | None => ([], Done)
+      | Some k =>
+          let '(l, s) := find_iter find_b fuel tr t frag
+                           (if is_nil frag then S (ob + (k + length frag)) else ob + (k + length frag)) hi in
+          ((ob + k, ob + (k + length frag)) :: l, s)
+      end.
   Proof.
-    induction n as [|n IH]; intros fuel frag ob oe Hn H1 H2 Hf.
-    all: destruct fuel as [|fuel]; [lia|]; cbn [find_iter].
-    all: rewrite res_text_by_offset_ok, tr_spec, find_b_spec, mi_unfold by assumption.
-    all: set (hay := sub t ob oe); set (hay' := map g hay).
-    all: assert (Hg : forall c, In c hay -> clen (g c) = clen c) by (intros c Hc; apply g_len; apply (In_sub _ _ _ _ Hc)).
-    all: assert (Hlen : length hay' = oe - ob) by (subst hay' hay; rewrite map_length, sub_length; lia).
-    all: destruct (first_occ frag hay') as [k|] eqn:Eo; [|reflexivity]; cbn [option_map].
-    all: destruct (first_occ_Some _ _ _ Eo) as (Hk & Hp & _).
-    all: pose proof (bytepos_occ _ _ _ Hp) as Hocc.
-    all: unfold hay' in Hocc; rewrite (bytepos_map g hay (k + length frag) Hg), (bytepos_map g hay k Hg) in Hocc.
-    all: change (bytepos hay' k) with (bytepos (map g hay) k); rewrite !(bytepos_map g hay k Hg).
-    all: unfold hay at 1; rewrite cpos_in_sub by lia.
-    all: rewrite <- Nat.add_assoc, <- Hocc; unfold hay at 1; rewrite cpos_in_sub by lia.
-    all: rewrite res_textselection_ok by lia.
-    - (* n = 0: ob = oe *)
-      assert (ob = oe) by lia. subst oe. assert (k = 0 /\ length frag = 0) as [-> Hl] by lia.
+    intros H0 H1 H2. cbn [find_iter].
+    rewrite res_text_by_offset_ok, tr_spec, find_b_spec by assumption.
+    set (hay := sub t ob hi); set (hay' := map g hay).
+    assert (Hg : forall c, In c hay -> clen (g c) = clen c) by (intros c Hc; apply g_len; apply (In_sub_mono _ _ _ _ _ H0 Hc)).
+    assert (Hlen : length hay' = hi - ob) by (subst hay' hay; rewrite map_length, sub_length; lia).
+    destruct (first_occ frag hay') as [k|] eqn:Eo; [|reflexivity]; cbn [option_map].
+    destruct (first_occ_Some _ _ _ Eo) as (Hk & Hp & _).
+    pose proof (bytepos_occ _ _ _ Hp) as Hocc.
+    unfold hay' in Hocc; rewrite (bytepos_map g hay (k + length frag) Hg), (bytepos_map g hay k Hg) in Hocc.
+    change (bytepos hay' k) with (bytepos (map g hay) k); rewrite !(bytepos_map g hay k Hg).
+    unfold hay at 1; rewrite cpos_in_sub by lia.
+    rewrite <- Hocc; unfold hay at 1; rewrite cpos_in_sub by lia.
+    rewrite res_textselection_ok by lia. reflexivity.
+  Qed.
+
+  Lemma find_iter_spec : forall n fuel frag ob,
+    hi - ob <= n -> lo <= ob -> ob <= hi -> hi <= length t -> n + 2 <= fuel ->
+    find_iter find_b fuel tr t frag ob hi
+    = (match_indices_go frag (map g (sub t ob hi)) ob 0, Done).
+  Proof.
+    induction n as [|n IH]; intros fuel frag ob Hn H0 H1 H2 Hf.
+    all: destruct fuel as [|fuel]; [lia|]; rewrite find_iter_step, mi_unfold by assumption.
+    all: set (hay' := map g (sub t ob hi)).
+    all: assert (Hlen : length hay' = hi - ob) by (subst hay'; rewrite map_length, sub_length; lia).
+    all: destruct (first_occ frag hay') as [k|] eqn:Eo; [|reflexivity].
+    all: destruct (first_occ_Some _ _ _ Eo) as (Hk & Hp & Hmin).
+    - (* n = 0: ob = hi *)
+      assert (ob = hi) by lia. subst ob. assert (k = 0 /\ length frag = 0) as [-> Hl] by lia.
       destruct frag; [|discriminate]. cbn [is_nil length]. rewrite !Nat.add_0_r.
       destruct fuel; [lia|]. rewrite find_iter_done by lia.
-      unfold hay', hay. rewrite sub_nil. reflexivity.
+      unfold hay'. rewrite sub_nil. reflexivity.
     - destruct frag as [|f frag].
       + cbn [is_nil length]. assert (k = 0) as ->.
-        { destruct k; [reflexivity|]. destruct (first_occ_Some _ _ _ Eo) as (_ & _ & H3). specialize (H3 0 ltac:(lia)). discriminate. }
-        rewrite !Nat.add_0_r. destruct (Nat.eq_dec ob oe) as [->|Hne].
-        * destruct fuel; [lia|]. rewrite find_iter_done by lia. unfold hay', hay. rewrite sub_nil. reflexivity.
-        * rewrite (IH fuel [] (S ob) oe) by lia.
-          assert (Hs : skipn 1 hay' = map g (sub t (S ob) oe)).
-          { unfold hay', hay. rewrite skipn_map, sub_skipn by lia. do 2 f_equal. lia. }
+        { destruct k; [reflexivity|]. specialize (Hmin 0 ltac:(lia)). discriminate. }
+        rewrite !Nat.add_0_r. destruct (Nat.eq_dec ob hi) as [->|Hne].
+        * destruct fuel; [lia|]. rewrite find_iter_done by lia. unfold hay'. rewrite sub_nil. reflexivity.
+        * rewrite (IH fuel [] (S ob)) by lia.
+          assert (Hs : skipn 1 hay' = map g (sub t (S ob) hi)).
+          { unfold hay'. rewrite skipn_map, sub_skipn by lia. do 2 f_equal. lia. }
           destruct hay' as [|c h']; [cbn in Hlen; lia|]. cbn in Hs. rewrite Hs. reflexivity.
       + cbn [is_nil]. set (F := f :: frag) in *.
         assert (1 <= length F) by (subst F; cbn; lia).
-        rewrite (IH fuel F (ob + (k + length F)) oe) by lia.
-        unfold hay', hay. rewrite skipn_map, sub_skipn by lia.
+        rewrite (IH fuel F (ob + (k + length F))) by lia.
+        unfold hay'. rewrite skipn_map, sub_skipn by lia.
         replace (ob + k + length F) with (ob + (k + length F)) by lia. reflexivity.
   Qed.
+
+  Lemma find_first_spec frag ob : lo <= ob -> ob <= hi -> hi <= length t ->
+    find_first find_b tr t frag ob hi
+    = OOk (hd_error (match_indices_go frag (map g (sub t ob hi)) ob 0)).
+  Proof.
+    intros H0 H1 H2. unfold find_first. rewrite find_iter_step, mi_unfold by assumption.
+    destruct (first_occ frag (map g (sub t ob hi))) as [k|]; [|reflexivity]. cbn [find_iter].
+    replace (ob + k + length frag) with (ob + (k + length frag)) by lia. reflexivity.
+  Qed.
 End FindProof.
+
 (** * case-insensitive occurrences when lower-casing is one-to-one and length-preserving *)
 Lemma lc_prefix_map lc (g : N -> N) : forall hay nd, (forall c, In c hay -> lc c = [g c]) ->
   lc_prefix lc hay nd = if prefixb nd (map g hay) then Some (length nd) else None.
@@ -267,8 +306,16 @@ Proof.
   cbn. f_equal. apply IH. intros; apply H; right; assumption.
 Qed.
 
-Definition LenPres (lc : N -> text) (g : N -> N) (t : text) : Prop :=
-  forall c, In c t -> lc c = [g c] /\ clen (g c) = clen c.
+Definition LenPres (lc : N -> text) (g : N -> N) (hay : text) : Prop :=
+  forall c, In c hay -> lc c = [g c] /\ clen (g c) = clen c.
+
+Lemma not_known_LenPres lc hay : Known_C07_nocase_len lc hay = false ->
+  LenPres lc (fun c => hd c (lc c)) hay.
+Proof.
+  unfold Known_C07_nocase_len. intros H. apply negb_false_iff in H. rewrite forallb_forall in H.
+  intros c Hc. specialize (H c Hc). unfold len_pres in H.
+  destruct (lc c) as [|c' [|? ?]]; try discriminate. cbn. split; [reflexivity|]. apply Nat.eqb_eq in H. exact H.
+Qed.
 
 Section FindTop.
   Variable find_b : text -> text -> option nat.
@@ -278,21 +325,27 @@ Section FindTop.
     find_text find_b t nd sb se = (map (shift sb) (match_indices nd (sub t sb se)), Done).
   Proof.
     intros H1 H2. unfold find_text, find_fuel.
-    rewrite (find_iter_spec find_b find_b_spec (fun c => c) t (fun _ _ => eq_refl) (fun x => x)
-               (fun b e => eq_sym (map_id _)) (se - sb)) by lia.
+    rewrite (find_iter_spec find_b find_b_spec (fun c => c) t sb se (fun _ _ => eq_refl) (fun x => x)
+               (fun b _ _ => eq_sym (map_id _)) (se - sb)) by lia.
     rewrite map_id, mi_shift. reflexivity.
   Qed.
 
-  Theorem find_text_nocase_spec lc g t nd sb se : LenPres lc g t -> sb <= se -> se <= length t ->
+  Theorem find_text_nocase_spec lc g t nd sb se : LenPres lc g (sub t sb se) -> sb <= se -> se <= length t ->
     find_text_nocase find_b (flat_map lc) t nd sb se
     = (map (shift sb) (nocase_indices lc (flat_map lc nd) (sub t sb se)), Done).
   Proof.
     intros HL H1 H2. unfold find_text_nocase, find_fuel.
-    rewrite (find_iter_spec find_b find_b_spec g t (fun c Hc => proj2 (HL c Hc)) (flat_map lc)) with (n := se - sb); try lia.
+    rewrite (find_iter_spec find_b find_b_spec g t sb se (fun c Hc => proj2 (HL c Hc)) (flat_map lc)) with (n := se - sb); try lia.
     - rewrite mi_shift. unfold nocase_indices. rewrite (nocase_go_map lc g); [reflexivity|].
-      intros c Hc. apply HL. apply (In_sub _ _ _ _ Hc).
-    - intros b e. apply flat_map_singleton. intros c Hc. apply HL. apply (In_sub _ _ _ _ Hc).
+      intros c Hc. apply HL. exact Hc.
+    - intros b Hb1 Hb2. apply flat_map_singleton. intros c Hc. apply HL. apply (In_sub_mono _ _ _ _ _ Hb1 Hc).
   Qed.
+
+  Theorem find_text_nocase_guarded lc t nd sb se : Known_C07_nocase_len lc (sub t sb se) = false ->
+    sb <= se -> se <= length t ->
+    find_text_nocase find_b (flat_map lc) t nd sb se
+    = (map (shift sb) (nocase_indices lc (flat_map lc nd) (sub t sb se)), Done).
+  Proof. intros H. apply find_text_nocase_spec with (g := fun c => hd c (lc c)). apply not_known_LenPres. exact H. Qed.
 
   Theorem store_find_spec nd : forall ts i, store_find find_b i ts nd = (store_indices i ts nd, Done).
   Proof.
@@ -301,3 +354,611 @@ Section FindTop.
     f_equal. f_equal. rewrite map_map. apply map_ext. intros [a b]. reflexivity.
   Qed.
 End FindTop.
+
+(** * what match_indices means: sound, ordered and non-overlapping, maximal *)
+
+(* every reported range begins at or after [from], ranges follow each other without overlap
+   (after an empty match the next one begins further on), all inside [.., hi] *)
+Fixpoint chain (from : nat) (ms : list (nat * nat)) (hi : nat) : Prop :=
+  match ms with
+  | [] => True
+  | m :: ms' => from <= fst m /\ fst m <= snd m /\ snd m <= hi
+                /\ chain (Nat.max (snd m) (S (fst m))) ms' hi
+  end.
+
+Lemma chain_weaken ms hi : forall from from', from' <= from -> chain from ms hi -> chain from' ms hi.
+Proof. destruct ms as [|m ms]; [trivial|]. cbn. intros. intuition lia. Qed.
+
+Lemma chain_In ms hi : forall from m, chain from ms hi -> In m ms -> from <= fst m /\ fst m <= snd m /\ snd m <= hi.
+Proof.
+  induction ms as [|x ms IH]; intros from m Hc Hin; [contradiction|].
+  cbn in Hc. destruct Hc as (H1 & H2 & H3 & H4). destruct Hin as [<-|Hin]; [lia|].
+  destruct (IH _ _ H4 Hin). lia.
+Qed.
+
+Lemma mi_chain nd : forall hay pos skip,
+  chain (pos + skip) (match_indices_go nd hay pos skip) (pos + length hay).
+Proof.
+  induction hay as [|c hay IH]; intros pos skip.
+  - cbn. destruct ((skip =? 0) && prefixb nd []) eqn:E; cbn; [|trivial].
+    apply andb_true_iff in E. destruct E as [E _]. apply Nat.eqb_eq in E. lia.
+  - cbn [match_indices_go]. destruct ((skip =? 0) && prefixb nd (c :: hay)) eqn:E.
+    + apply andb_true_iff in E. destruct E as [E1 E2]. apply Nat.eqb_eq in E1. apply prefixb_length in E2.
+      cbn [length] in *. cbn [chain fst snd]. repeat split; try lia.
+      eapply chain_weaken; [|replace (pos + S (length hay)) with (S pos + length hay) by lia; apply IH]. lia.
+    + replace (pos + length (c :: hay)) with (S pos + length hay) by (cbn; lia).
+      eapply chain_weaken; [|apply IH]. lia.
+Qed.
+
+Lemma mi_sound nd : forall hay pos skip m, In m (match_indices_go nd hay pos skip) ->
+  pos <= fst m /\ snd m = fst m + length nd /\ prefixb nd (skipn (fst m - pos) hay) = true.
+Proof.
+  induction hay as [|c hay IH]; intros pos skip m H.
+  - cbn in H. destruct ((skip =? 0) && prefixb nd []) eqn:E; [|contradiction].
+    destruct H as [<-|[]]. apply andb_true_iff in E. destruct E as [_ E]. cbn.
+    destruct nd; [|discriminate]. rewrite Nat.sub_diag. cbn. repeat split; lia.
+  - cbn [match_indices_go] in H. destruct ((skip =? 0) && prefixb nd (c :: hay)) eqn:E.
+    + destruct H as [<-|H].
+      * apply andb_true_iff in E. destruct E as [_ E]. cbn [fst snd]. rewrite Nat.sub_diag. cbn [skipn].
+        repeat split; [lia|exact E].
+      * destruct (IH _ _ _ H) as (H1 & H2 & H3). repeat split; [lia|exact H2|].
+        replace (fst m - pos) with (S (fst m - S pos)) by lia. exact H3.
+    + destruct (IH _ _ _ H) as (H1 & H2 & H3). repeat split; [lia|exact H2|].
+      replace (fst m - pos) with (S (fst m - S pos)) by lia. exact H3.
+Qed.
+
+(* no occurrence is missed: every position where the needle occurs is the begin of a reported
+   range or lies inside one *)
+Lemma mi_maximal nd : forall hay pos skip p, pos + skip <= p -> p <= pos + length hay ->
+  prefixb nd (skipn (p - pos) hay) = true ->
+  exists m, In m (match_indices_go nd hay pos skip) /\ fst m <= p /\ p < Nat.max (snd m) (S (fst m)).
+Proof.
+  induction hay as [|c hay IH]; intros pos skip p H1 H2 H3.
+  - cbn in H2. assert (p = pos) by lia. subst p. rewrite Nat.sub_diag in H3. cbn in H3.
+    cbn. replace (skip =? 0) with true by lia. rewrite H3. cbn. exists (pos, pos). cbn. split; [left; reflexivity|lia].
+  - cbn [match_indices_go]. destruct ((skip =? 0) && prefixb nd (c :: hay)) eqn:E.
+    + destruct (Nat.lt_ge_cases p (Nat.max (pos + length nd) (S pos))) as [Hin|Hout].
+      * exists (pos, pos + length nd). cbn [fst snd]. split; [left; reflexivity|lia].
+      * destruct (IH (S pos) (length nd - 1) p) as (m & Hm & Hm'); [lia|cbn in H2; lia| |].
+        { replace (p - pos) with (S (p - S pos)) in H3 by lia. exact H3. }
+        exists m. split; [right; exact Hm|exact Hm'].
+    + assert (pos < p).
+      { destruct (Nat.eq_dec p pos) as [->|]; [|lia]. exfalso. rewrite Nat.sub_diag in H3. cbn [skipn] in H3.
+        rewrite H3 in E. replace (skip =? 0) with true in E by lia. discriminate. }
+      destruct (IH (S pos) (skip - 1) p) as (m & Hm & Hm'); [lia|cbn in H2; lia| |].
+      { replace (p - pos) with (S (p - S pos)) in H3 by lia. exact H3. }
+      exists m. split; assumption.
+Qed.
+
+(* the text of a range in a plain string *)
+Lemma subtext_prefix nd hay k : prefixb nd (skipn k hay) = true -> subtext hay k (k + length nd) = nd.
+Proof.
+  intros H. apply prefixb_true in H. unfold subtext. rewrite H.
+  replace (k + length nd - k) with (length nd) by lia.
+  rewrite firstn_app, Nat.sub_diag, firstn_all. cbn. apply app_nil_r.
+Qed.
+
+Theorem match_indices_sound nd hay m : In m (match_indices nd hay) ->
+  snd m <= length hay /\ subtext hay (fst m) (snd m) = nd.
+Proof.
+  intros H. pose proof (mi_sound nd hay 0 0 m H) as (_ & H2 & H3). rewrite Nat.sub_0_r in H3.
+  split; [|rewrite H2; apply subtext_prefix; exact H3].
+  pose proof (chain_In _ _ _ _ (mi_chain nd hay 0 0) H). cbn in *. lia.
+Qed.
+
+Theorem match_indices_ordered nd hay : chain 0 (match_indices nd hay) (length hay).
+Proof. exact (mi_chain nd hay 0 0). Qed.
+
+Theorem match_indices_maximal nd hay p : p + length nd <= length hay -> subtext hay p (p + length nd) = nd ->
+  exists m, In m (match_indices nd hay) /\ fst m <= p /\ p < Nat.max (snd m) (S (fst m)).
+Proof.
+  intros H1 H2. apply (mi_maximal nd hay 0 0 p); [lia|lia|]. rewrite Nat.sub_0_r.
+  unfold subtext in H2. replace (p + length nd - p) with (length nd) in H2 by lia.
+  rewrite <- H2 at 1. rewrite <- (firstn_skipn (length nd) (skipn p hay)) at 2. apply prefixb_app.
+Qed.
+
+(** * split_text *)
+
+Lemma gaps_range ms hi : forall from, chain from ms hi -> from <= hi ->
+  forall r, In r (gaps from ms hi) -> from <= fst r /\ fst r <= snd r /\ snd r <= hi.
+Proof.
+  induction ms as [|m ms IH]; intros from Hc Hf r Hr.
+  - destruct Hr as [<-|[]]. cbn. lia.
+  - cbn in Hc. destruct Hc as (H1 & H2 & H3 & H4). destruct Hr as [<-|Hr]; [cbn; lia|].
+    destruct (IH (snd m) (chain_weaken ms hi (Nat.max (snd m) (S (fst m))) (snd m) ltac:(lia) H4) H3 r Hr). lia.
+Qed.
+
+Lemma collect_map_ok {X Y} (f : X -> out Y) (h : X -> Y) : forall l,
+  (forall x, In x l -> f x = OOk (h x)) -> collect (map f l) = (map h l, Done).
+Proof.
+  induction l as [|x l IH]; intros H; [reflexivity|]. cbn [map collect].
+  rewrite (H x) by (left; reflexivity). rewrite IH by (intros; apply H; right; assumption). reflexivity.
+Qed.
+
+Lemma split_piece_ok t sb se s e : sb <= se -> se <= length t -> s <= e -> e <= se - sb ->
+  split_piece t (bytepos t sb)
+    (bytepos (sub t sb se) s, bytepos (sub t sb se) e - bytepos (sub t sb se) s)
+  = OOk (sb + s, sb + e).
+Proof.
+  intros H1 H2 H3 H4. unfold split_piece. cbn [fst snd]. rewrite !Nat.sub_0_r.
+  pose proof (bytepos_mono (sub t sb se) s e H3 ltac:(rewrite sub_length; lia)).
+  replace (bytepos t sb + bytepos (sub t sb se) s + (bytepos (sub t sb se) e - bytepos (sub t sb se) s))
+    with (bytepos t sb + bytepos (sub t sb se) e) by lia.
+  rewrite !cpos_in_sub by lia. rewrite res_textselection_ok by lia. reflexivity.
+Qed.
+
+Section SplitProof.
+  Variable split_b : text -> text -> list (nat * nat).
+  Hypothesis split_b_spec : forall hay d,
+    split_b hay d = map (fun r => (bytepos hay (fst r), bytepos hay (snd r) - bytepos hay (fst r))) (split_spec d hay).
+
+  Theorem split_text_spec t d sb se : sb <= se -> se <= length t ->
+    split_text split_b t d sb se = (map (shift sb) (split_spec d (sub t sb se)), Done).
+  Proof.
+    intros H1 H2. unfold split_text. rewrite sel_text_ok, split_b_spec by assumption.
+    rewrite map_map. apply collect_map_ok. intros r Hr.
+    destruct (gaps_range _ _ _ (match_indices_ordered d (sub t sb se)) ltac:(lia) r Hr) as (_ & Ha & Hb).
+    rewrite sub_length in Hb by lia. apply split_piece_ok; assumption.
+  Qed.
+End SplitProof.
+
+Lemma subtext_split hay a b : a <= b -> b <= length hay -> skipn a hay = subtext hay a b ++ skipn b hay.
+Proof.
+  intros H1 H2. unfold subtext. rewrite <- (firstn_skipn (b - a) (skipn a hay)) at 1. f_equal.
+  rewrite skipn_skipn. f_equal. lia.
+Qed.
+
+Lemma gaps_nonempty ms : forall from hi, gaps from ms hi <> [].
+Proof. destruct ms; discriminate. Qed.
+
+Lemma join_cons d x l : l <> [] -> join d (x :: l) = x ++ d ++ join d l.
+Proof. destruct l; [contradiction|reflexivity]. Qed.
+
+Lemma gaps_join d hay ms : forall from, chain from ms (length hay) -> from <= length hay ->
+  (forall m, In m ms -> subtext hay (fst m) (snd m) = d) ->
+  join d (map (fun r => subtext hay (fst r) (snd r)) (gaps from ms (length hay))) = skipn from hay.
+Proof.
+  induction ms as [|m ms IH]; intros from Hc Hf Hd.
+  - cbn. unfold subtext. apply firstn_all2. rewrite skipn_length. lia.
+  - cbn in Hc. destruct Hc as (H1 & H2 & H3 & H4). cbn [gaps map fst snd].
+    rewrite join_cons by (intros E; apply map_eq_nil in E; exact (gaps_nonempty _ _ _ E)).
+    rewrite IH; [|eapply chain_weaken; [|exact H4]; lia|lia|intros; apply Hd; right; assumption].
+    rewrite (subtext_split hay from (fst m)) by lia. f_equal.
+    rewrite (subtext_split hay (fst m) (snd m)) by lia. f_equal. symmetry. apply Hd. left. reflexivity.
+Qed.
+
+(* the pieces are in order, cover the text and are separated by exactly the delimiter:
+   joining their texts with the delimiter gives the text back *)
+Theorem split_join d hay :
+  join d (map (fun r => subtext hay (fst r) (snd r)) (split_spec d hay)) = hay.
+Proof.
+  unfold split_spec. rewrite gaps_join; [reflexivity|apply match_indices_ordered|lia|].
+  intros m Hm. apply match_indices_sound. exact Hm.
+Qed.
+
+(* consecutive pieces: [pieces_chain from ps hi]: first begins at from, each next begins where a
+   delimiter occurrence after the previous ends, last ends at hi *)
+Fixpoint pieces_sep (d hay : text) (ps : list (nat * nat)) : Prop :=
+  match ps with
+  | p :: ((q :: _) as ps') => snd p <= fst q /\ subtext hay (snd p) (fst q) = d /\ fst q = snd p + length d /\ pieces_sep d hay ps'
+  | _ => True
+  end.
+
+Lemma gaps_sep d hay ms : forall from, (forall m, In m ms -> snd m = fst m + length d /\ subtext hay (fst m) (snd m) = d) ->
+  pieces_sep d hay (gaps from ms (length hay)).
+Proof.
+  induction ms as [|m ms IH]; intros from H; [exact I|].
+  cbn [gaps]. specialize (IH (snd m) (fun x Hx => H x (or_intror Hx))).
+  destruct ms as [|m' ms]; cbn [gaps pieces_sep fst snd] in *.
+  - destruct (H m (or_introl eq_refl)) as [E1 E2]. repeat split; [lia|exact E2|exact E1].
+  - destruct (H m (or_introl eq_refl)) as [E1 E2]. repeat split; [lia|exact E2|exact E1|exact IH].
+Qed.
+
+Lemma gaps_last ms hi : forall from dflt, exists b, last (gaps from ms hi) dflt = (b, hi).
+Proof.
+  induction ms as [|m ms IH]; intros from dflt; [cbn; eauto|].
+  cbn [gaps]. destruct (IH (snd m) dflt) as [b Hb]. exists b. rewrite <- Hb.
+  pose proof (gaps_nonempty ms (snd m) hi). destruct (gaps (snd m) ms hi); [contradiction|reflexivity].
+Qed.
+
+Theorem split_partition d hay :
+  let ps := split_spec d hay in
+  (exists e, hd_error ps = Some (0, e)) /\ (exists b, last ps (0, 0) = (b, length hay))
+  /\ pieces_sep d hay ps
+  /\ forall r, In r ps -> fst r <= snd r /\ snd r <= length hay.
+Proof.
+  cbv zeta. unfold split_spec. repeat split.
+  - destruct (match_indices d hay); cbn; eauto.
+  - apply gaps_last.
+  - apply gaps_sep. intros m Hm. pose proof (mi_sound d hay 0 0 m Hm) as (_ & H2 & _).
+    split; [exact H2|apply match_indices_sound; exact Hm].
+  - destruct (gaps_range _ _ _ (match_indices_ordered d hay) ltac:(lia) r H). lia.
+  - destruct (gaps_range _ _ _ (match_indices_ordered d hay) ltac:(lia) r H). lia.
+Qed.
+
+(** * trim_text *)
+
+Lemma dropwhile_decomp f : forall l, l = firstn (count_while f l) l ++ dropwhile f l
+  /\ forallb f (firstn (count_while f l) l) = true
+  /\ count_while f l + length (dropwhile f l) = length l.
+Proof.
+  induction l as [|c l IH]; [repeat split|]. cbn [count_while dropwhile].
+  destruct (f c) eqn:E; [|repeat split]. destruct IH as (H1 & H2 & H3). cbn [firstn app forallb length].
+  rewrite E, H2. repeat split; [f_equal; exact H1|lia].
+Qed.
+
+Lemma dropwhile_head f l : match dropwhile f l with [] => True | c :: _ => f c = false end.
+Proof. induction l as [|c l IH]; [exact I|]. cbn. destruct (f c) eqn:E; [exact IH|exact E]. Qed.
+
+Lemma count_while_app_stop f : forall a z, existsb (fun c => negb (f c)) a = true ->
+  count_while f (a ++ z) = count_while f a.
+Proof.
+  induction a as [|c a IH]; intros z H; [discriminate|]. cbn in *. destruct (f c); [|reflexivity].
+  cbn in H. f_equal. apply IH. exact H.
+Qed.
+
+Lemma skipn_count_dropwhile f l : skipn (count_while f l) l = dropwhile f l.
+Proof. induction l as [|c l IH]; [reflexivity|]. cbn. destruct (f c); [exact IH|reflexivity]. Qed.
+
+Theorem trim_text_spec inset t sb se : sb <= se -> se <= length t ->
+  trim_text inset t sb se = OOk (shift sb (trim_spec inset (sub t sb se))).
+Proof.
+  intros H1 H2. unfold trim_text, trim_spec. rewrite sel_text_ok by assumption.
+  set (hay := sub t sb se). assert (HL : length hay = se - sb) by (apply sub_length; assumption).
+  destruct (dropwhile_decomp inset hay) as (Hd & _ & Hc).
+  set (a := dropwhile inset hay) in *. set (tb := count_while inset hay) in *.
+  destruct (dropwhile_decomp inset (rev a)) as (_ & _ & Hc').
+  destruct a as [|x a'] eqn:Ea.
+  - cbn [length rev dropwhile] in *. replace (tb =? se - sb) with true by lia.
+    replace (se - sb <? 0) with false by lia. rewrite Nat.sub_0_r.
+    replace (se - sb <? tb) with false by lia. replace (se - sb <? se - sb) with false by lia.
+    rewrite res_textselection_ok by lia. unfold shift. cbn [fst snd]. do 2 f_equal; lia.
+  - rewrite <- Ea in *. assert (Hx : inset x = false).
+    { pose proof (dropwhile_head inset hay) as Hh. fold a in Hh. rewrite Ea in Hh. exact Hh. }
+    assert (Hla : 1 <= length a) by (rewrite Ea; cbn; lia).
+    replace (tb =? se - sb) with false by lia.
+    assert (Hte : count_while inset (rev hay) = count_while inset (rev a)).
+    { rewrite Hd at 1. rewrite rev_app_distr. apply count_while_app_stop.
+      rewrite Ea. cbn [rev]. rewrite existsb_app. cbn. rewrite Hx. cbn. apply orb_true_r. }
+    rewrite Hte. rewrite rev_length in Hc'.
+    set (te := count_while inset (rev a)) in *. set (b := dropwhile inset (rev a)) in *.
+    replace (se - sb <? te) with false by lia. replace (se - sb <? tb) with false by lia.
+    replace (se - sb <? se - sb - te) with false by lia.
+    rewrite res_textselection_ok by lia. unfold shift. cbn [fst snd]. do 2 f_equal; lia.
+Qed.
+
+(* what remains is the text without its leading and trailing set members (str::trim_matches) *)
+Theorem trim_spec_text f hay :
+  let r := trim_spec f hay in
+  fst r <= snd r /\ snd r <= length hay
+  /\ subtext hay (fst r) (snd r) = rev (dropwhile f (rev (dropwhile f hay)))
+  /\ forallb f (firstn (fst r) hay) = true /\ forallb f (skipn (snd r) hay) = true.
+Proof.
+  cbv zeta. unfold trim_spec. cbn [fst snd].
+  destruct (dropwhile_decomp f hay) as (Hd & Hf & Hc).
+  set (a := dropwhile f hay) in *. set (tb := count_while f hay) in *.
+  destruct (dropwhile_decomp f (rev a)) as (Hd' & Hf' & Hc'). rewrite rev_length in Hc'.
+  set (b := dropwhile f (rev a)) in *. set (te := count_while f (rev a)) in *.
+  assert (Ha : skipn tb hay = a) by apply skipn_count_dropwhile.
+  assert (Hra : a = rev b ++ rev (firstn te (rev a))).
+  { rewrite <- rev_app_distr, <- Hd', rev_involutive. reflexivity. }
+  replace (length hay - length a) with tb by lia.
+  split; [lia|]. split; [lia|]. split; [|split; [exact Hf|]].
+  - unfold subtext. replace (tb + length b - tb) with (length b) by lia. rewrite Ha, Hra.
+    rewrite firstn_app, rev_length, Nat.sub_diag, firstn_all2 by (rewrite rev_length; lia).
+    cbn. apply app_nil_r.
+  - replace (tb + length b) with (length b + tb) by lia. rewrite <- skipn_skipn, Ha, Hra.
+    rewrite skipn_app, rev_length, Nat.sub_diag, skipn_all2 by (rewrite rev_length; lia). cbn.
+    rewrite forallb_forall in *. intros c Hc0. apply Hf'. apply in_rev. exact Hc0.
+Qed.
+
+(** * segmentation *)
+
+Lemma filter_ext_seq (P Q : nat -> bool) : forall k lo, (forall p, lo <= p -> P p = Q p) ->
+  filter P (seq lo k) = filter Q (seq lo k).
+Proof.
+  induction k as [|k IH]; intros lo H; [reflexivity|]. cbn. rewrite (H lo) by lia.
+  rewrite (IH (S lo)) by (intros; apply H; lia). reflexivity.
+Qed.
+
+Lemma filter_none_seq (Q : nat -> bool) : forall k lo, (forall p, lo <= p -> Q p = false) -> filter Q (seq lo k) = [].
+Proof.
+  induction k as [|k IH]; intros lo H; [reflexivity|]. cbn. rewrite (H lo) by lia. apply IH. intros; apply H; lia.
+Qed.
+
+(* positions at or beyond the end of the range make no difference *)
+Lemma seg_iter_cut active (P : nat -> bool) e : forall k lo cursor, cursor < e ->
+  seg_iter active (filter P (seq lo k)) cursor e
+  = seg_iter active (filter (fun p => P p && (p <? e)) (seq lo k)) cursor e.
+Proof.
+  induction k as [|k IH]; intros lo cursor Hc; [reflexivity|]. cbn [seq filter].
+  destruct (P lo) eqn:EP; cbn [andb]; [|apply IH; exact Hc].
+  destruct (lo <? e) eqn:El.
+  - cbn [seg_iter]. replace (e <=? cursor) with false by lia.
+    destruct ((cursor <? lo) && active lo); [|apply IH; exact Hc].
+    replace (e <? lo) with false by lia. f_equal. apply IH. lia.
+  - rewrite (filter_none_seq (fun p => P p && (p <? e)) k (S lo))
+      by (intros p Hp; replace (p <? e) with false by lia; apply andb_false_r).
+    cbn [seg_iter]. replace (e <=? cursor) with false by lia.
+    destruct ((cursor <? lo) && active lo).
+    + destruct (e <? lo) eqn:E2; [reflexivity|]. assert (lo = e) by lia. subst lo.
+      destruct (filter P (seq (S e) k)); cbn; rewrite Nat.leb_refl; reflexivity.
+    + rewrite IH by exact Hc.
+      rewrite (filter_none_seq (fun p => P p && (p <? e)) k (S lo))
+        by (intros p Hp; replace (p <? e) with false by lia; apply andb_false_r).
+      cbn. replace (e <=? cursor) with false by lia. reflexivity.
+Qed.
+
+Lemma seg_iter_filter active (P : nat -> bool) e b :
+  (forall p, active p = true -> b < p -> p < e -> P p = true) ->
+  (forall p, P p = true -> p < e) ->
+  forall k lo cursor, b <= cursor -> cursor < e ->
+  seg_iter active (filter P (seq lo k)) cursor e
+  = pieces cursor (filter (fun p => (cursor <? p) && active p && (p <? e)) (seq lo k)) e.
+Proof.
+  intros HP HP2. induction k as [|k IH]; intros lo cursor Hb Hc.
+  - cbn. replace (e <=? cursor) with false by lia. reflexivity.
+  - cbn [seq filter]. destruct ((cursor <? lo) && active lo && (lo <? e)) eqn:EQ.
+    + apply andb_true_iff in EQ. destruct EQ as [EQ E3]. apply andb_true_iff in EQ. destruct EQ as [E1 E2].
+      rewrite HP by (try assumption; lia). cbn [seg_iter]. replace (e <=? cursor) with false by lia.
+      rewrite E1, E2. cbn [andb]. replace (e <? lo) with false by lia. cbn [pieces]. f_equal.
+      rewrite IH by lia. f_equal. apply filter_ext_seq. intros p Hp.
+      replace (cursor <? p) with true by lia. replace (lo <? p) with true by lia. reflexivity.
+    + destruct (P lo) eqn:EP; [|apply IH; assumption].
+      cbn [seg_iter]. replace (e <=? cursor) with false by lia.
+      apply HP2 in EP. replace (lo <? e) with true in EQ by lia. rewrite andb_true_r in EQ. rewrite EQ.
+      apply IH; assumption.
+Qed.
+
+Lemma cuts_eq known lo hi n : hi <= n ->
+  filter (fun p => (lo <? p) && seg_active known p && (p <? hi)) (seq 0 n) = cuts known lo hi.
+Proof.
+  intros Hn. unfold cuts. replace n with (hi + (n - hi)) by lia. rewrite seq_app, filter_app.
+  rewrite (filter_none_seq _ (n - hi) (0 + hi))
+    by (intros p Hp; replace (p <? hi) with false by lia; apply andb_false_r).
+  rewrite app_nil_r. apply filter_ext_in. intros p Hp. apply in_seq in Hp.
+  replace (p <? hi) with true by lia. rewrite andb_true_r. reflexivity.
+Qed.
+
+Lemma filter_comp {X} (f g : X -> bool) l : filter g (filter f l) = filter (fun x => f x && g x) l.
+Proof.
+  induction l as [|x l IH]; [reflexivity|]. cbn. destruct (f x); cbn; [|exact IH].
+  destruct (g x); [f_equal|]; exact IH.
+Qed.
+
+Lemma seg_iter_empty active poss c e : e <= c -> seg_iter active poss c e = [].
+Proof. intros H. destruct poss; cbn; replace (e <=? c) with true by lia; reflexivity. Qed.
+
+Theorem segmentation_in_range_spec interval t known b e : b <= e -> e <= length t ->
+  segmentation_in_range interval t known b e = segments_spec known b e.
+Proof.
+  intros H1 H2. unfold segmentation_in_range, segments_spec. destruct (b <? e) eqn:E.
+  - unfold index_keys. rewrite filter_comp.
+    rewrite (seg_iter_filter (seg_active known) _ e b) by
+      (try lia; intros p; intros; repeat (apply andb_true_iff in H || apply andb_true_iff; split); try lia;
+       try (rewrite H; apply orb_true_r); destruct H; lia).
+    rewrite cuts_eq by lia. reflexivity.
+  - apply seg_iter_empty. lia.
+Qed.
+
+Theorem segmentation_spec interval t known :
+  segmentation interval t known = segments_spec known 0 (length t).
+Proof.
+  unfold segmentation, segments_spec. destruct (0 <? length t) eqn:E.
+  - unfold index_keys. rewrite seg_iter_cut by lia.
+    rewrite (seg_iter_filter (seg_active known) _ (length t) 0); try lia.
+    rewrite cuts_eq by lia. reflexivity.
+  - apply seg_iter_empty. lia.
+Qed.
+
+(* what the segments are: consecutive non-empty pieces from lo to hi ... *)
+Fixpoint contiguous (from : nat) (segs : list (nat * nat)) (hi : nat) : Prop :=
+  match segs with
+  | [] => from = hi
+  | s :: segs' => fst s = from /\ fst s < snd s /\ contiguous (snd s) segs' hi
+  end.
+
+Fixpoint increasing_from (from : nat) (cs : list nat) (hi : nat) : Prop :=
+  match cs with
+  | [] => True
+  | c :: cs' => from < c /\ c < hi /\ increasing_from c cs' hi
+  end.
+
+Lemma pieces_contiguous hi : forall cs from, from < hi -> increasing_from from cs hi ->
+  contiguous from (pieces from cs hi) hi.
+Proof.
+  induction cs as [|c cs IH]; intros from Hf Hi; cbn in *; [lia|].
+  destruct Hi as (H1 & H2 & H3). repeat split; [lia|]. apply IH; assumption.
+Qed.
+
+Lemma filter_seq_increasing (Q : nat -> bool) hi : forall k s from,
+  (forall p, s <= p -> p < s + k -> Q p = true -> from < p /\ p < hi) ->
+  increasing_from from (filter Q (seq s k)) hi.
+Proof.
+  induction k as [|k IH]; intros s from H; [exact I|]. cbn. destruct (Q s) eqn:E.
+  - destruct (H s (le_n _) ltac:(lia) E). cbn. repeat split; [lia|lia|]. apply IH. intros p Hp Hp' Hq.
+    destruct (H p ltac:(lia) ltac:(lia) Hq). lia.
+  - apply IH. intros p Hp Hp' Hq. apply H; [lia|lia|exact Hq].
+Qed.
+
+Theorem segments_contiguous known lo hi : lo < hi -> contiguous lo (segments_spec known lo hi) hi.
+Proof.
+  intros H. unfold segments_spec. replace (lo <? hi) with true by lia.
+  apply pieces_contiguous; [exact H|]. unfold cuts. apply filter_seq_increasing.
+  intros p _ Hp Hq. apply andb_true_iff in Hq. destruct Hq as [Hq _]. lia.
+Qed.
+
+(* ... cut exactly at the positions strictly inside the range where a known selection begins or ends *)
+Lemma pieces_begins hi : forall cs from, map fst (pieces from cs hi) = from :: cs.
+Proof. induction cs as [|c cs IH]; intros from; [reflexivity|]. cbn. f_equal. apply IH. Qed.
+
+Theorem segments_cut_points known lo hi p : lo < hi ->
+  In p (tl (map fst (segments_spec known lo hi))) <-> lo < p /\ p < hi /\ is_boundary known p = true.
+Proof.
+  intros H. unfold segments_spec. replace (lo <? hi) with true by lia. rewrite pieces_begins. cbn [tl].
+  unfold cuts. rewrite filter_In, in_seq, andb_true_iff. split; intros; intuition lia.
+Qed.
+
+(** * find_text_sequence *)
+
+Lemma sub_sub t sb se a b : sb <= se -> se <= length t -> a <= b -> b <= se - sb ->
+  sub (sub t sb se) a b = sub t (sb + a) (sb + b).
+Proof.
+  intros H1 H2 H3 H4. unfold sub at 1. rewrite sub_skipn by lia. unfold sub.
+  rewrite firstn_firstn. f_equal. lia.
+Qed.
+
+Section SeqProof.
+  Variable find_b : text -> text -> option nat.
+  Hypothesis find_b_spec : forall hay nd, find_b hay nd = option_map (bytepos hay) (first_occ nd hay).
+  Variable g : N -> N.
+  Variable t : text.
+  Variables sb se : nat.
+  Hypothesis g_len : forall c, In c (sub t sb se) -> clen (g c) = clen c.
+  Variable tr : text -> text.
+  Hypothesis tr_spec : forall b, sb <= b -> b <= se -> tr (sub t b se) = map g (sub t b se).
+
+  Lemma sequence_go_spec skip : sb <= se -> se <= length t ->
+    forall frags pos, sb <= pos -> pos <= se ->
+    sequence_go find_b tr skip t sb se frags pos (Some (pos, se))
+    = OOk (option_map (map (shift sb))
+             (sequence_spec (fun f h => match_indices (tr f) (map g h)) skip (sub t sb se) (pos - sb) frags)).
+  Proof.
+    intros H1 H2. induction frags as [|f frags IH]; intros pos Hp1 Hp2; [reflexivity|].
+    cbn [sequence_go sequence_spec]. rewrite (find_first_spec find_b find_b_spec g t sb se g_len tr tr_spec) by lia.
+    rewrite sub_skipn by lia. replace (sb + (pos - sb)) with pos by lia.
+    unfold match_indices. rewrite (mi_shift (tr f) _ pos 0).
+    destruct (match_indices_go (tr f) (map g (sub t pos se)) 0 0) as [|[k k2] rest] eqn:Em; [reflexivity|].
+    cbn [map hd_error shift fst snd].
+    assert (Hin : In (k, k2) (match_indices (tr f) (map g (sub t pos se)))) by (unfold match_indices; rewrite Em; left; reflexivity).
+    pose proof (chain_In _ _ _ _ (match_indices_ordered _ _) Hin) as (_ & Hk1 & Hk2). cbn [fst snd] in *.
+    rewrite map_length, sub_length in Hk2 by lia.
+    assert (Hskip : (if pos <? pos + k
+                     then if (se - sb <? pos - sb) || (se - sb <? pos + k - sb) then None
+                          else match res_textselection t pos (sb + (pos + k - sb)) with
+                               | None => None
+                               | Some (x, y) => match sel_text t x y with OOk (_, s) => Some (forallb skip s) | _ => None end
+                               end
+                     else Some true)
+                    = Some (forallb skip (firstn k (sub t pos se)))).
+    { destruct (pos <? pos + k) eqn:E.
+      - replace (se - sb <? pos - sb) with false by lia. replace (se - sb <? pos + k - sb) with false by lia.
+        cbn [orb]. replace (sb + (pos + k - sb)) with (pos + k) by lia.
+        rewrite res_textselection_ok by lia. rewrite sel_text_ok by lia.
+        do 2 f_equal. unfold sub. rewrite firstn_firstn. f_equal. lia.
+      - assert (k = 0) by lia. subst k. reflexivity. }
+    rewrite Hskip. destruct (forallb skip (firstn k (sub t pos se))); [|reflexivity].
+    replace (se - pos <? pos + k2 - pos) with false by lia.
+    replace (pos + (pos + k2 - pos)) with (pos + k2) by lia. replace (pos + (se - pos)) with se by lia.
+    rewrite res_textselection_ok by lia. rewrite IH by lia.
+    replace (pos + k2 - sb) with (pos - sb + k2) by lia.
+    destruct (sequence_spec _ skip (sub t sb se) (pos - sb + k2) frags); [|reflexivity].
+    cbn [option_map map]. do 3 f_equal. unfold shift. cbn [fst snd]. f_equal; lia.
+  Qed.
+End SeqProof.
+
+Lemma sequence_spec_ext occ1 occ2 skip hay : (forall f pos, occ1 f (skipn pos hay) = occ2 f (skipn pos hay)) ->
+  forall frags pos, sequence_spec occ1 skip hay pos frags = sequence_spec occ2 skip hay pos frags.
+Proof.
+  intros H. induction frags as [|f frags IH]; intros pos; [reflexivity|]. cbn. rewrite H.
+  destruct (occ2 f (skipn pos hay)) as [|[k k2] _]; [reflexivity|]. rewrite IH. reflexivity.
+Qed.
+
+Section SeqTop.
+  Variable find_b : text -> text -> option nat.
+  Hypothesis find_b_spec : forall hay nd, find_b hay nd = option_map (bytepos hay) (first_occ nd hay).
+
+  Theorem find_text_sequence_spec skip t frags sb se : sb <= se -> se <= length t ->
+    find_text_sequence find_b (fun x => x) skip t frags sb se
+    = OOk (option_map (map (shift sb)) (sequence_spec match_indices skip (sub t sb se) 0 frags)).
+  Proof.
+    intros H1 H2. unfold find_text_sequence. rewrite res_textselection_ok by lia.
+    rewrite (sequence_go_spec find_b find_b_spec (fun c => c) t sb se (fun _ _ => eq_refl) (fun x => x)
+               (fun b _ _ => eq_sym (map_id _))) by lia.
+    rewrite Nat.sub_diag. do 2 f_equal. apply sequence_spec_ext. intros f pos. rewrite map_id. reflexivity.
+  Qed.
+
+  Theorem find_text_sequence_nocase_spec lc g skip t frags sb se : LenPres lc g (sub t sb se) -> sb <= se -> se <= length t ->
+    find_text_sequence find_b (flat_map lc) skip t frags sb se
+    = OOk (option_map (map (shift sb))
+             (sequence_spec (fun f h => nocase_indices lc (flat_map lc f) h) skip (sub t sb se) 0 frags)).
+  Proof.
+    intros HL H1 H2. unfold find_text_sequence. rewrite res_textselection_ok by lia.
+    rewrite (sequence_go_spec find_b find_b_spec g t sb se (fun c Hc => proj2 (HL c Hc)) (flat_map lc)); try lia.
+    - rewrite Nat.sub_diag. do 2 f_equal. apply sequence_spec_ext. intros f pos.
+      unfold nocase_indices, match_indices. symmetry. apply nocase_go_map.
+      intros c Hc. apply HL. apply (In_skipn' _ _ _ Hc).
+    - intros b Hb1 Hb2. apply flat_map_singleton. intros c Hc. apply HL. apply (In_sub_mono _ _ _ _ _ Hb1 Hc).
+  Qed.
+
+  Theorem find_text_sequence_nocase_guarded lc skip t frags sb se :
+    Known_C07_nocase_len lc (sub t sb se) = false -> sb <= se -> se <= length t ->
+    find_text_sequence find_b (flat_map lc) skip t frags sb se
+    = OOk (option_map (map (shift sb))
+             (sequence_spec (fun f h => nocase_indices lc (flat_map lc f) h) skip (sub t sb se) 0 frags)).
+  Proof. intros H. apply find_text_sequence_nocase_spec with (g := fun c => hd c (lc c)). apply not_known_LenPres. exact H. Qed.
+End SeqTop.
+
+(** * find_text_regex: from the engine's byte offsets on the slice to absolute codepoint positions *)
+
+Lemma ulen_clen c : ulen c = clen c.
+Proof. reflexivity. Qed.
+
+Lemma char_index_bytepos : forall hay p, p <= length hay -> char_index hay (bytepos hay p) = Some p.
+Proof.
+  induction hay as [|c hay IH]; intros p Hp.
+  - cbn in Hp. replace p with 0 by lia. reflexivity.
+  - destruct p as [|p]; [rewrite bytepos_0; reflexivity|]. rewrite bytepos_S. pose proof (clen_pos c).
+    cbn [char_index]. destruct (clen c + bytepos hay p) eqn:E; [lia|]. rewrite <- E, ulen_clen.
+    replace (clen c <=? clen c + bytepos hay p) with true by lia.
+    replace (clen c + bytepos hay p - clen c) with (bytepos hay p) by lia.
+    rewrite IH by (cbn in Hp; lia). reflexivity.
+Qed.
+
+(* a byte offset that char_index accepts is the byte position of that character *)
+Lemma char_index_sound : forall hay b p, char_index hay b = Some p -> p <= length hay /\ b = bytepos hay p.
+Proof.
+  induction hay as [|c hay IH]; intros b p H.
+  - destruct b; [|discriminate]. injection H as <-. split; [lia|reflexivity].
+  - destruct b as [|b']; [injection H as <-; rewrite bytepos_0; split; [lia|reflexivity]|].
+    cbn [char_index] in H. rewrite ulen_clen in H. destruct (clen c <=? S b') eqn:E; [|discriminate].
+    destruct (char_index hay (S b' - clen c)) as [q|] eqn:Eq; [|discriminate]. injection H as <-.
+    destruct (IH _ _ Eq) as [H1 H2]. rewrite bytepos_S. cbn. split; lia.
+Qed.
+
+(* the oracle's group (s, e), on character boundaries of the searched slice *)
+Definition on_boundaries (hay : text) (g : nat * nat) (ps pe : nat) : Prop :=
+  ps <= pe /\ pe <= length hay /\ g = (bytepos hay ps, bytepos hay pe).
+
+Theorem regex_offsets t sb se g ps pe : sb <= se -> se <= length t ->
+  on_boundaries (sub t sb se) g ps pe ->
+  conv_group t (bytepos t sb) g = OOk (sb + ps, sb + pe)
+  /\ sub t (sb + ps) (sb + pe) = sub (sub t sb se) ps pe
+  /\ char_index (sub t sb se) (fst g) = Some ps /\ char_index (sub t sb se) (snd g) = Some pe.
+Proof.
+  intros H1 H2 (H3 & H4 & ->). rewrite sub_length in H4 by lia. cbn [fst snd]. split; [|split; [|split]].
+  - unfold conv_group. cbn [fst snd]. rewrite !cpos_in_sub by lia. rewrite res_textselection_ok by lia. reflexivity.
+  - symmetry. apply sub_sub; lia.
+  - apply char_index_bytepos. rewrite sub_length; lia.
+  - apply char_index_bytepos. rewrite sub_length; lia.
+Qed.
+
+
+
+(** * reference engines (what the hypotheses on str::find / str::split say, as functions) *)
+Definition find_b_ref (hay nd : text) : option nat := option_map (bytepos hay) (first_occ nd hay).
+Definition split_b_ref (hay d : text) : list (nat * nat) :=
+  map (fun r => (bytepos hay (fst r), bytepos hay (snd r) - bytepos hay (fst r))) (split_spec d hay).
+
+(* the faithful model refutes the unguarded case-insensitive statement *)
+Definition lc_witness (c : N) : text :=
+  if (c =? 304)%N then [105; 775]%N else if (c =? 7838)%N then [223]%N else [c].
+
+Lemma nocase_refuted :
+  Known_C07_nocase_len lc_witness [304; 120]%N = true
+  /\ find_text_nocase find_b_ref (flat_map lc_witness) [304; 120]%N [120]%N 0 2 = ([], Panicked)
+  /\ nocase_indices lc_witness [120]%N [304; 120]%N = [(1, 2)]
+  /\ Known_C07_nocase_len lc_witness [7838; 97; 98]%N = true
+  /\ find_text_nocase find_b_ref (flat_map lc_witness) [7838; 97; 98]%N [98]%N 0 3 = ([(1, 2); (2, 3)], Done)
+  /\ nocase_indices lc_witness [98]%N [7838; 97; 98]%N = [(2, 3)].
+Proof. vm_compute. repeat split. Qed.
